@@ -516,3 +516,14 @@ def git_head(path=REPO):
         return subprocess.run(["git", "-C", str(path), "rev-parse", "--short", "HEAD"], capture_output=True, text=True).stdout.strip()
     except Exception:
         return "?"
+
+
+def tree_differs_from_head(path=REPO) -> bool:
+    """True iff `path` is a git work tree whose tracked sources under src/ differ from its HEAD (a change under
+    test, e.g. an applied patch).  Anything else (not a git tree, git unavailable, identical tree) is False."""
+    try:
+        r = subprocess.run(["git", "-C", str(path), "diff", "--quiet", "HEAD", "--", "src"], capture_output=True, timeout=60)
+        return r.returncode == 1
+    except Exception:  # noqa: BLE001
+        return False
+
